@@ -90,3 +90,301 @@ class crtf_ellipse_axes_convention_is_inverted_on_read:
 def angle_of(q):
     from astropy.coordinates import Angle
     return Angle(q)
+
+
+# ---------------------------------------------------------------------------- reading: from parsed tokens to the region
+# The line grammar (regular expressions: shape name, bracket groups, key=value pairs) is text processing outside the verifier and is
+# covered by the bounded runner.  Everything after it is real code under contract here: `_CRTFRegionParser` is run through its real
+# constructor and `parse()`, with the one regex step (`convert_coordinates`: text -> list of Angle/Quantity tokens) replaced by the
+# token list itself, for symbolic token values in every unit notation.
+RKINDS = ('circle', 'box', 'centerbox', 'rotbox', 'poly', 'annulus', 'ellipse', 'line', 'symbol', 'text')
+RSYS = {'image': None, 'J2000': 'fk5', 'B1950': 'fk4', 'ICRS': 'icrs', 'GALACTIC': 'galactic', 'j2000': 'fk5'}
+RCASES = {f'{k}-{s}-{sign or "none"}-{au}': {'kind': k, 'sys': s, 'sign': sign, 'aunit': au}
+          for k in RKINDS for s in ('image', 'J2000', 'GALACTIC') for sign in ('+', '-', None) for au in ('deg', 'rad')
+          if not (au == 'rad' and k not in ('rotbox', 'ellipse')) and not (sign is None and s != 'image')}
+RCASES.update({f'circle-{s}-+-deg': {'kind': 'circle', 'sys': s, 'sign': '+', 'aunit': 'deg'} for s in ('B1950', 'ICRS', 'j2000')})
+RCASES['circle-default-+-deg'] = {'kind': 'circle', 'sys': None, 'sign': '+', 'aunit': 'deg'}     # no coord= anywhere: image
+
+
+def tokens_for(B, kind, sys, aunit):
+    """what the tokeniser hands on for `kind[...]`: coordinates as Angle (celestial) or dimensionless Quantity (pix), lengths as
+    Quantity in the unit written (here: arcsec / deg for celestial lengths), the position angle in `aunit`"""
+    import astropy.units as u
+    sky = sys not in ('image', None)
+
+    def c(name):
+        return angle_of(B.quantity(name, 'deg')) if sky else B.call(u.Quantity, B.real(name), u.dimensionless_unscaled)
+
+    def l(name, unit='arcsec'):
+        return B.quantity(name, unit) if sky else B.call(u.Quantity, B.real(name), u.dimensionless_unscaled)
+    if kind == 'circle':
+        return [c('x'), c('y'), l('r')]
+    if kind == 'box':
+        return [c('x'), c('y'), c('x2'), c('y2')]
+    if kind == 'centerbox':
+        return [c('x'), c('y'), l('w'), l('h', 'deg')]
+    if kind == 'rotbox':
+        return [c('x'), c('y'), l('w'), l('h', 'deg'), B.quantity('pa', aunit)]
+    if kind == 'poly':
+        return [c('x'), c('y'), c('x2'), c('y2'), c('x3'), c('y3'), c('x4'), c('y4')]
+    if kind == 'annulus':
+        return [c('x'), c('y'), l('r'), l('r2', 'deg')]
+    if kind == 'ellipse':
+        return [c('x'), c('y'), l('bmaj'), l('bmin', 'deg'), B.quantity('pa', aunit)]
+    if kind in ('line',):
+        return [c('x'), c('y'), c('x2'), c('y2')]
+    return [c('x'), c('y')]
+
+
+def tokens_wf(kind, t):
+    """sizes a region accepts (what happens to the others is C17's subject)"""
+    v = lambda q: q.to_value('rad') if q.unit.physical_type == 'angle' else q.value
+    if kind == 'circle':
+        return v(t[2]) > 0
+    if kind in ('centerbox', 'rotbox', 'ellipse'):
+        return v(t[2]) > 0 and v(t[3]) > 0
+    if kind == 'annulus':
+        return 0 < v(t[2]) and v(t[2]) < v(t[3])
+    if kind == 'box':
+        return v(t[0]) != v(t[2]) and v(t[1]) != v(t[3])
+    return True
+
+
+def decode_tokens(kind, tokens, global_meta, sign, type_):
+    from regions.io.crtf.read import _CRTFRegionParser
+
+    class TokensGiven(_CRTFRegionParser):
+        def convert_coordinates(self):
+            # the tokeniser's result; what it does besides for text / symbol lines is reproduced from convert_coordinates
+            self.coord = list(tokens)
+            if self.region_type == 'symbol':
+                self.meta['symbol'] = '+'
+            elif self.region_type == 'text':
+                self.meta['text'] = 'some text'
+    return TokensGiven(global_meta, sign, type_, kind, '', '').shape.to_region()
+
+
+def same_q(a, b):
+    """equal as physical quantities and written in the same unit"""
+    return a.unit == b.unit and a.value == b.value
+
+
+def decoded_ok(kind, sys, tokens, result):
+    """the CASA reading of the tokens (statement of C11): class, position(s), sizes, angle"""
+    sky = sys not in ('image', None)
+    t = tokens
+    name = result.__class__.__name__
+    want = {'circle': 'Circle', 'box': 'Rectangle', 'centerbox': 'Rectangle', 'rotbox': 'Rectangle', 'poly': 'Polygon',
+            'annulus': 'CircleAnnulus', 'ellipse': 'Ellipse', 'line': 'Line', 'symbol': 'Point', 'text': 'Text'}[kind] + ('Sky' if sky else 'Pixel') + 'Region'
+    if name != want:
+        return False
+
+    def at(c, x, y, i=None):
+        if sky:
+            lon, lat = c.spherical.lon.to_value('rad'), c.spherical.lat.to_value('rad')
+            if i is not None:
+                lon, lat = lon[i], lat[i]
+            return c.frame.name == RSYS[sys] and lon == x.to_value('rad') and lat == y.to_value('rad')
+        cx, cy = (c.x, c.y) if i is None else (c.x[i], c.y[i])
+        return cx == x.value and cy == y.value
+
+    def size(got, tok, factor=1):
+        if sky:
+            return got.to_value('rad') == factor * tok.to_value('rad')
+        return got == factor * tok.value
+    if kind == 'circle':
+        return at(result.center, t[0], t[1]) and size(result.radius, t[2])
+    if kind == 'annulus':
+        return at(result.center, t[0], t[1]) and size(result.inner_radius, t[2]) and size(result.outer_radius, t[3])
+    if kind == 'centerbox':
+        return at(result.center, t[0], t[1]) and size(result.width, t[2]) and size(result.height, t[3]) and result.angle.to_value('rad') == 0
+    if kind == 'rotbox':
+        return at(result.center, t[0], t[1]) and size(result.width, t[2]) and size(result.height, t[3]) and same_q(result.angle, t[4])
+    if kind == 'ellipse':
+        # [bmaj, bmin] are SEMI-axes; the major axis is the region's height, the minor its width
+        return at(result.center, t[0], t[1]) and size(result.height, t[2], 2) and size(result.width, t[3], 2) and same_q(result.angle, t[4])
+    if kind == 'box':
+        if sky:
+            cx, cy = (t[0].to_value('rad') + t[2].to_value('rad')) / 2, (t[1].to_value('rad') + t[3].to_value('rad')) / 2
+            ok = result.center.frame.name == RSYS[sys] and result.center.spherical.lon.to_value('rad') == cx and result.center.spherical.lat.to_value('rad') == cy
+            return ok and result.width.to_value('rad') == abs(t[0].to_value('rad') - t[2].to_value('rad')) \
+                and result.height.to_value('rad') == abs(t[1].to_value('rad') - t[3].to_value('rad'))
+        return result.center.x == (t[0].value + t[2].value) / 2 and result.center.y == (t[1].value + t[3].value) / 2 \
+            and result.width == abs(t[0].value - t[2].value) and result.height == abs(t[1].value - t[3].value)
+    if kind == 'poly':
+        n = len(result.vertices.spherical.lon) if sky else len(result.vertices.x)
+        return n == 4 and at(result.vertices, t[0], t[1], 0) and at(result.vertices, t[2], t[3], 1) \
+            and at(result.vertices, t[4], t[5], 2) and at(result.vertices, t[6], t[7], 3)
+    if kind == 'line':
+        return at(result.start, t[0], t[1]) and at(result.end, t[2], t[3])
+    if kind == 'symbol':
+        return at(result.center, t[0], t[1]) and result.visual['symbol'] == '+'
+    return at(result.center, t[0], t[1]) and result.text == 'some text' and result.meta['label'] == 'some text'
+
+
+@contract('regions/io/crtf/read.py::_CRTFRegionParser.parse', props=['C11'])
+class crtf_tokens_are_read_by_the_casa_rules:
+    """global defaults (coord=, color, label-less), sign, annotation type and the token list of one region line -> the region"""
+    cases = dict(RCASES)
+    cases.update({k + '-ann': dict(v, type_='ann') for k, v in RCASES.items() if k in ('circle-J2000-+-deg', 'rotbox-image---deg', 'text-GALACTIC-+-deg')})
+
+    def setup(B, kind='circle', sys='J2000', sign='+', aunit='deg', type_='reg'):
+        gm = {'color': 'blue', 'linewidth': '2', 'frame': 'BARY'}
+        if sys is not None:
+            gm['coord'] = sys
+        return dict(kind=kind, sys=sys, tokens=tokens_for(B, kind, sys, aunit), global_meta=gm, sign=sign, type_=type_)
+    pre = lambda kind, tokens: tokens_wf(kind, tokens)
+    call = lambda kind, tokens, global_meta, sign, type_: decode_tokens(kind, tokens, global_meta, sign, type_)
+    post = {
+        'geometry_by_the_casa_conventions': lambda kind, sys, tokens, result: decoded_ok(kind, sys, tokens, result),
+        'a_leading_minus_excludes': lambda sign, result: result.meta['include'] == (sign != '-'),
+        'annotation_type_kept': lambda type_, result: result.meta['type'] == type_,
+        'global_defaults_apply': lambda result: result.visual['color'] == 'blue' and result.visual['linewidth'] == '2' and result.meta['frame'] == 'BARY'
+            and 'coord' not in result.meta and 'coord' not in result.visual,
+        'global_meta_not_modified': lambda sys, global_meta: global_meta == dict({'color': 'blue', 'linewidth': '2', 'frame': 'BARY'}, **({'coord': sys} if sys is not None else {})),
+    }
+
+
+# ---------------------------------------------------------------------------- reading: coordinate and length tokens
+from vprim import exact_number_text as N, PI
+
+CREAD = 'regions/io/crtf/read.py::_CRTFCoordinateParser.'
+
+
+def ctok(B, form, dots=1):
+    """(token text, the numbers it is written with); a, b >= 0 are the integer fields of a sexagesimal notation, c >= 0 its seconds
+    (written with a decimal point); a plain value v is written with (dots=1) or without (dots=0) a decimal point"""
+    v, c = (B.real('v') if dots else B.int('v')), B.real('c')
+    a, b = B.int('a'), B.int('b')
+    B.assume(a >= 0)
+    B.assume(b >= 0)
+    B.assume(c >= 0)
+    if form in ('a:b:c', '-a:b:c', 'hms'):
+        B.assume(a <= 24)        # field ranges Angle accepts (hours <= 24, minutes and seconds <= 60); beyond them it raises ValueError
+    B.assume(b <= 60)
+    B.assume(c <= 60)
+    if form in ('pix', 'deg', 'rad', 'arcmin', 'arcsec', '"', "'"):
+        return N(v, dots) + form, (v,)
+    if form == 'bare':
+        return N(v, dots), (v,)
+    if form == 'a:b:c':
+        return N(a, 0) + ':' + N(b, 0) + ':' + N(c, 1), (a, b, c)
+    if form == '-a:b:c':
+        return '-' + N(a, 0) + ':' + N(b, 0) + ':' + N(c, 1), (a, b, c)
+    if form == 'a.b.c':
+        return N(a, 0) + '.' + N(b, 0) + '.' + N(c, 1), (a, b, c)
+    if form == '-a.b.c':
+        return '-' + N(a, 0) + '.' + N(b, 0) + '.' + N(c, 1), (a, b, c)
+    if form == 'hms':
+        return N(a, 0) + 'h' + N(b, 0) + 'm' + N(c, 1) + 's', (a, b, c)
+    if form == 'dms':
+        return N(a, 0) + 'd' + N(b, 0) + 'm' + N(c, 1) + 's', (a, b, c)
+    raise ValueError(form)
+
+
+def coordinate_parser():
+    from regions.io.crtf.read import _CRTFCoordinateParser
+    return _CRTFCoordinateParser
+
+
+def sexa(nums):
+    return nums[0] + nums[1] / 60 + nums[2] / 3600
+
+
+def coordinate_rad(form, nums):
+    """CASA: <n>deg, <n>rad, hh:mm:ss.s is an hour angle, XhYmZs hours, XdYmZs degrees"""
+    if form == 'deg':
+        return nums[0] * PI / 180
+    if form == 'rad':
+        return nums[0]
+    if form == 'a:b:c':
+        return sexa(nums) * PI / 12
+    if form == '-a:b:c':
+        return -sexa(nums) * PI / 12
+    if form == 'a.b.c':
+        return sexa(nums) * PI / 180          # dd.mm.ss.s is in degrees
+    if form == '-a.b.c':
+        return -sexa(nums) * PI / 180
+    if form == 'hms':
+        return sexa(nums) * PI / 12
+    if form == 'dms':
+        return sexa(nums) * PI / 180
+    return None
+
+
+@contract(CREAD + 'parse_coordinate', props=['C11'])
+class crtf_coordinate_token:
+    cases = {f: {'form': f} for f in ('a:b:c', '-a:b:c', 'a.b.c', '-a.b.c', 'hms', 'dms')}
+    cases.update({f + ('' if d else '-integer'): {'form': f, 'dots': d} for f in ('pix', 'deg', 'rad') for d in (1, 0)})
+
+    def setup(B, form='deg', dots=1):
+        t, nums = ctok(B, form, dots)
+        return dict(string_rep=t, nums=nums, form=form)
+    call = lambda string_rep: coordinate_parser().parse_coordinate(string_rep)
+    post = {
+        'pixel_coordinates_are_plain_numbers': lambda form, nums, result:
+            form != 'pix' or (result.unit.physical_type == 'dimensionless' and result.value == nums[0]),
+        'celestial_coordinates_by_the_casa_notations': lambda form, nums, result:
+            form == 'pix' or (result.__class__.__name__ == 'Angle' and result.to_value('rad') == coordinate_rad(form, nums)),
+    }
+
+
+def length_value(form, nums):
+    """(physical type, value in rad or in pixels)"""
+    v = nums[0]
+    return {'deg': ('angle', v * PI / 180), 'rad': ('angle', v), 'arcmin': ('angle', v * PI / 10800), "'": ('angle', v * PI / 10800),
+            'arcsec': ('angle', v * PI / 648000), '"': ('angle', v * PI / 648000), 'pix': ('dimensionless', v)}[form]
+
+
+@contract(CREAD + 'parse_angular_length_quantity', props=['C11'])
+class crtf_length_token:
+    """lengths require units: a bare number is refused; every CASA unit notation gives the quantity it denotes"""
+    cases = {f + ('' if d else '-integer'): {'form': f, 'dots': d} for f in ('deg', 'rad', 'arcmin', 'arcsec', '"', "'", 'pix', 'bare') for d in (1, 0)}
+
+    def setup(B, form='deg', dots=1):
+        t, nums = ctok(B, form, dots)
+        return dict(string_rep=t, nums=nums, form=form)
+    call = lambda string_rep: coordinate_parser().parse_angular_length_quantity(string_rep)
+    raises = {'CRTFRegionParserError': lambda form: form == 'bare'}
+    post = {'value_and_unit': lambda form, nums, result:
+            result.unit.physical_type == length_value(form, nums)[0]
+            and (result.to_value('rad') if form != 'pix' else result.value) == length_value(form, nums)[1]}
+
+
+# ---------------------------------------------------------------------------- reading: the line grammar on concrete lines
+# (regular expressions run through the real `re` on concrete text: these cases are executed, not generalised - the general statements
+# are the token and decoder contracts above; they pin the wiring between the grammar and those layers)
+def _parse(text):
+    from regions.io.crtf.read import _parse_crtf
+    return _parse_crtf(text)
+
+
+GRAMMAR = {
+    'globals_accumulate': ('#CRTFv0\nglobal coord=GALACTIC, color=blue\nglobal linewidth=2\ncircle[[10deg, 20deg], 1deg]',
+                           dict(cls='CircleSkyRegion', frame='galactic', visual={'color': 'blue', 'linewidth': '2'}, include=True, type='reg')),
+    'later_global_overrides': ('#CRTFv0\nglobal coord=J2000, color=blue\nglobal color=green\ncircle[[10deg, 20deg], 1deg]',
+                               dict(cls='CircleSkyRegion', frame='fk5', visual={'color': 'green'}, include=True, type='reg')),
+    'inline_overrides_global': ('#CRTFv0\nglobal coord=J2000, color=blue, linewidth=2\ncircle[[10deg, 20deg], 1deg], color=red',
+                                dict(cls='CircleSkyRegion', frame='fk5', visual={'color': 'red', 'linewidth': '2'}, include=True, type='reg')),
+    'inline_coord_selects_the_frame': ('#CRTFv0\nglobal coord=J2000\ncircle[[10deg, 20deg], 1deg], coord=GALACTIC',
+                                       dict(cls='CircleSkyRegion', frame='galactic', visual={}, include=True, type='reg')),
+    'minus_excludes': ('#CRTFv0\n-circle[[10pix, 20pix], 3pix]', dict(cls='CirclePixelRegion', frame=None, visual={}, include=False, type='reg')),
+    'ann_marks_annotations': ('#CRTFv0\nann circle[[10pix, 20pix], 3pix]', dict(cls='CirclePixelRegion', frame=None, visual={}, include=True, type='ann')),
+    'no_coord_means_image': ('#CRTFv0\nrotbox[[10pix, 20pix], [4pix, 6pix], 0.5rad]', dict(cls='RectanglePixelRegion', frame=None, visual={}, include=True, type='reg')),
+}
+
+
+@contract('regions/io/crtf/read.py::_parse_crtf', props=['C11', 'C13'])
+class crtf_line_grammar_cases:
+    cases = {k: {'which': k} for k in GRAMMAR}
+
+    def setup(B, which='globals_accumulate'):
+        return dict(text=GRAMMAR[which][0], want=GRAMMAR[which][1])
+    call = lambda text: (_parse(text), _parse(text))
+    post = {
+        'one_region_of_the_class': lambda want, result: len(result[0]) == 1 and result[0][0].__class__.__name__ == want['cls'],
+        'frame': lambda want, result: want['frame'] is None or result[0][0].center.frame.name == want['frame'],
+        'defaults_and_overrides': lambda want, result: dict(result[0][0].visual) == want['visual'],
+        'sign_and_type': lambda want, result: result[0][0].meta['include'] == want['include'] and result[0][0].meta['type'] == want['type'],
+        'parsing_again_gives_the_same': lambda result: result[0][0] == result[1][0] and dict(result[0][0].meta) == dict(result[1][0].meta),
+    }
